@@ -518,7 +518,7 @@ pub fn gen_c05(run: &mut Run, seed: u64, thorough: bool) {
                             _ => (i.owner.tok(), "its-owner"),
                         }
                     } else {
-                        (user.tok(), "right")
+                        if i.g.rng.chance(1, 6) { ("*".to_string(), "everyone") } else { (user.tok(), "right") }
                     };
                     let data = if i.g.rng.chance(1, 3) { hx(&i.g.rng.bytes(5)) } else { "~".to_string() };
                     let id_tok = if dev == 4 { hex::encode([0xeeu8; 32]) } else { hex::encode(tid) };
